@@ -1233,8 +1233,7 @@ impl TieredEngine {
 
         // Step 1: Search Layer 2 (Hot Tier) - recent writes
         // Over-fetch by 2× to ensure good candidates after merging
-        let hot_results =
-            self.filter_hot_knn_results_to_canonical(self.hot_tier.knn_search(query, k * 2));
+        let hot_results = self.hot_knn_canonical(query, k * 2);
 
         debug!(
             "Hot tier search returned {} results (requested {})",
@@ -1450,9 +1449,7 @@ impl TieredEngine {
 
         let hot_results: Vec<Vec<(u64, f32)>> = miss_queries
             .iter()
-            .map(|query| {
-                self.filter_hot_knn_results_to_canonical(self.hot_tier.knn_search(query, k * 2))
-            })
+            .map(|query| self.hot_knn_canonical(query, k * 2))
             .collect();
 
         {
@@ -1582,6 +1579,25 @@ impl TieredEngine {
         final_results.truncate(k);
 
         final_results
+    }
+
+    /// Canonical hot-tier candidates for a k-NN query.
+    ///
+    /// The hot tier cuts its scan to `limit` before stale mirrors are filtered out, so every stale
+    /// mirror inside the cut displaces a canonical recent write. Widen the scan by the number of
+    /// dropped candidates until `limit` canonical ones remain or the tier is exhausted.
+    fn hot_knn_canonical(&self, query: &[f32], limit: usize) -> Vec<(u64, f32)> {
+        let mut fetch = limit;
+        loop {
+            let raw = self.hot_tier.knn_search(query, fetch);
+            let scanned = raw.len();
+            let mut kept = self.filter_hot_knn_results_to_canonical(raw);
+            if scanned < fetch || kept.len() >= limit {
+                kept.truncate(limit);
+                return kept;
+            }
+            fetch = fetch.saturating_add(scanned - kept.len());
+        }
     }
 
     fn filter_hot_knn_results_to_canonical(&self, hot_results: Vec<(u64, f32)>) -> Vec<(u64, f32)> {
@@ -1921,7 +1937,13 @@ impl TieredEngine {
                     .await
                     {
                         Ok(Ok(hot)) => {
+                            let scanned = hot.len();
                             hot_results = self.filter_hot_knn_results_to_canonical(hot);
+                            if hot_results.len() < scanned && scanned >= k * 2 {
+                                // Stale mirrors took slots of the truncated scan; they are
+                                // discarded now, so rescan for the candidates they displaced.
+                                hot_results = self.hot_knn_canonical(&normalized_query, k * 2);
+                            }
                             self.hot_tier_circuit_breaker.record_success();
                         }
                         Ok(Err(e)) => {
